@@ -359,7 +359,7 @@ class Evaluator:
             return self.ev_match(e, ctx)
         if k == 'loop':
             untouched = {i for i, kd in ctx.sink_kind.items() if i != '#touched' and kd[0] == 'vec'} - ctx.sink_kind.get('#touched', set())
-            v, t = self.ev(e['body'], ctx)
+            v, t = self.ev(_while_form(e['body']), ctx)
             if t == ['eps']:
                 return (('unit',), t)
             c = canon_counter_loop(t) or canon_fill_loop(t, untouched)
@@ -489,6 +489,15 @@ class Evaluator:
                 somearm = [a for a in inner['arms'] if pat_desc(a['pat']) == 'Some']
                 if somearm:
                     somearm = somearm[0]
+                    if isinstance(src, tuple) and src[0] == 'array' and 0 < len(src[1]) <= 8:
+                        # a loop over an array literal is the sequence of its bodies, one per element
+                        tbs = []
+                        for el in src[1]:
+                            for i, sp in somearm['pat']['subs']:
+                                self.bind_pat(sp, el, ctx)
+                            v, tb = self.ev(somearm['body'], ctx)
+                            tbs.append(tb)
+                        return (('unit',), cat(ts, *tbs))
                     for i, sp in somearm['pat']['subs']:
                         self.bind_pat(sp, ('elem', src), ctx)
                     v, tb = self.ev(somearm['body'], ctx)
@@ -720,13 +729,15 @@ class Evaluator:
             return (('conv', strip(argv[0]), e['ga'][0] if tr == 'Into' else e['ga'][1], e['ga'][1] if tr == 'Into' else e['ga'][0]), pre)
         if tr == 'Iterator' and name == 'map':
             return (('mapiter', strip(argv[0]), argv[1]), pre)
-        if tr == 'FromIterator' and name == 'from_iter':
+        if (tr == 'FromIterator' and name == 'from_iter') or (tr == 'Iterator' and name == 'collect' and len(e['ga']) > 1):
+            # `B::from_iter(it)` and `it.collect::<B>()` are the same call
+            target = e['ga'][0] if name == 'from_iter' else e['ga'][1]
             it = strip(argv[0])
             if isinstance(it, tuple) and it[0] == 'mapiter':
                 r = self.apply_closure(it[2], [('elem', it[1])], ctx)
                 if r:
                     v, t, rets = r
-                    return (('res', ('collected', e['ga'][0], strip(v))), cat(pre, ['star', it[1], t], ['COLLECT', e['ga'][0], it[1]]))
+                    return (('res', ('collected', target, strip(v))), cat(pre, ['star', it[1], t], ['COLLECT', target, it[1]]))
         if tr == 'Iterator' and name == 'for_each' and len(argv) == 2:
             r = self.apply_closure(argv[1], [('elem', strip(argv[0]))], ctx)
             if r:
@@ -896,6 +907,38 @@ def _mutvars_in(x, acc):
         for y in x:
             _mutvars_in(y, acc)
     return acc
+
+
+def _while_form(body):
+    """`loop { if c { break } rest }` is `while !c { rest }`, i.e. `loop { if !c { rest } else { break } }` (the form a
+    `while` desugars to): give both spellings the same tree"""
+    b = body
+    if not (isinstance(b, dict) and b.get('k') == 'block' and b.get('stmts')):
+        return body
+    first = b['stmts'][0]
+    if not (isinstance(first, dict) and first.get('k') == 'if' and first.get('else') is None):
+        return body
+    th = first.get('then')
+    brk = None
+    if isinstance(th, dict) and th.get('k') == 'block' and not th.get('expr') and len(th.get('stmts') or []) == 1:
+        brk = th['stmts'][0]
+    elif isinstance(th, dict) and th.get('k') == 'block' and not th.get('stmts') and isinstance(th.get('expr'), dict):
+        brk = th['expr']
+    elif isinstance(th, dict) and th.get('k') == 'break':
+        brk = th
+    if not (isinstance(brk, dict) and brk.get('k') == 'break' and not brk.get('e')):
+        return body
+    rest = dict(b)
+    rest['stmts'] = b['stmts'][1:]
+    neg = {'k': 'un', 'op': 'Not', 'e': first['cond'], 'ty': 'bool', 'loc': first.get('loc')}
+    new_if = dict(first)
+    new_if['cond'] = neg
+    new_if['then'] = rest
+    new_if['else'] = brk
+    nb = dict(b)
+    nb['stmts'] = []
+    nb['expr'] = new_if
+    return nb
 
 
 def canon_counter_loop(t):
